@@ -71,9 +71,11 @@ impl CliCase {
 }
 
 pub fn build_binary() -> Result<PathBuf, String> {
-    let target = Path::new(VERIF).join("target").join("repobin");
+    let target = crate::report::out_dir().join("target").join("repobin");
     let out = Command::new("cargo")
-        .args(["build", "--release", "--offline", "--bin", "xml_schema_generator", "--manifest-path", "/repo/Cargo.toml", "--target-dir"])
+        .args(["build", "--release", "--offline", "--bin", "xml_schema_generator", "--manifest-path"])
+        .arg(crate::report::repo_dir().join("Cargo.toml"))
+        .arg("--target-dir")
         .arg(&target)
         .env("CARGO_NET_OFFLINE", "true")
         .output()
@@ -425,7 +427,7 @@ pub fn run_c12(thorough: bool, seed: u64, shards: usize) -> (Report, String) {
     };
     let have_strace = Command::new("strace").arg("-V").stdout(Stdio::null()).stderr(Stdio::null()).status().map(|s| s.success()).unwrap_or(false);
     let n: u64 = if thorough { 16_000 } else { 1_600 };
-    let work = Path::new(VERIF).join("work").join(format!("c12-{}", std::process::id()));
+    let work = crate::report::out_dir().join("work").join(format!("c12-{}", std::process::id()));
     let _ = std::fs::create_dir_all(&work);
     let mut rep = crate::report::sharded(shards, |shard| {
         let mut rep = Report::new();
@@ -451,7 +453,7 @@ pub fn run_c12(thorough: bool, seed: u64, shards: usize) -> (Report, String) {
 pub fn replay(case: &Value, rep: &mut Report) -> Result<(), String> {
     let c = CliCase::from_json(case).ok_or("cannot decode cli case")?;
     let bin = build_binary()?;
-    let work = Path::new(VERIF).join("work").join(format!("c12-replay-{}", std::process::id()));
+    let work = crate::report::out_dir().join("work").join(format!("c12-replay-{}", std::process::id()));
     let _ = std::fs::create_dir_all(&work);
     check_cli(&bin, &work, &c, 0, rep);
     let _ = std::fs::remove_dir_all(&work);
